@@ -3,6 +3,7 @@
 //! stdin, hard wall-clock kill on overrun).
 
 use crate::arena::*;
+use crate::big::Dy;
 use std::collections::{BTreeSet, HashMap};
 use std::fmt::Write as _;
 use std::io::{BufRead, BufReader, Write};
@@ -118,10 +119,96 @@ pub fn rat_lit(p: i64, q: i64) -> String {
 
 // ---------------------------------------------------------------------
 // query emission
+//
+// Every term is first brought into an exact affine normal form over "atoms" (input variables and
+// opaque non-affine sub-terms) with dyadic-rational coefficients, so that the solver sees flat
+// linear expressions instead of thousands of definitional equalities.
+
+const NODE_ATOM: u32 = 1 << 30;
+
+#[derive(Clone, Debug)]
+pub struct Aff {
+    pub c0: Dy,
+    /// (atom key, coefficient), sorted by key; keys < 2^30 are variables, others are opaque nodes
+    pub terms: Vec<(u32, Dy)>,
+}
+
+impl Aff {
+    fn konst(c: Dy) -> Aff {
+        Aff { c0: c, terms: vec![] }
+    }
+    fn atom(k: u32) -> Aff {
+        Aff { c0: Dy::zero(), terms: vec![(k, Dy::one())] }
+    }
+    fn scale(&self, c: &Dy) -> Aff {
+        if c.is_zero() {
+            return Aff::konst(Dy::zero());
+        }
+        Aff { c0: self.c0.mul(c), terms: self.terms.iter().map(|(k, d)| (*k, d.mul(c))).collect() }
+    }
+    fn add(&self, o: &Aff, sign_neg: bool) -> Aff {
+        let mut out = Vec::with_capacity(self.terms.len() + o.terms.len());
+        let (mut i, mut j) = (0, 0);
+        while i < self.terms.len() || j < o.terms.len() {
+            if j >= o.terms.len() || (i < self.terms.len() && self.terms[i].0 < o.terms[j].0) {
+                out.push(self.terms[i].clone());
+                i += 1;
+            } else if i >= self.terms.len() || o.terms[j].0 < self.terms[i].0 {
+                let d = if sign_neg { o.terms[j].1.neg() } else { o.terms[j].1.clone() };
+                out.push((o.terms[j].0, d));
+                j += 1;
+            } else {
+                let d = if sign_neg { o.terms[j].1.neg() } else { o.terms[j].1.clone() };
+                let s = self.terms[i].1.add(&d);
+                if !s.is_zero() {
+                    out.push((self.terms[i].0, s));
+                }
+                i += 1;
+                j += 1;
+            }
+        }
+        let c = if sign_neg { o.c0.neg() } else { o.c0.clone() };
+        Aff { c0: self.c0.add(&c), terms: out }
+    }
+    pub fn is_const(&self) -> bool {
+        self.terms.is_empty()
+    }
+}
+
+fn atom_name(k: u32) -> String {
+    if k >= NODE_ATOM {
+        format!("n{}", k - NODE_ATOM)
+    } else {
+        format!("v{}", k)
+    }
+}
+
+pub fn aff_str(a: &Aff) -> String {
+    if a.terms.is_empty() {
+        return a.c0.smt();
+    }
+    let mut parts: Vec<String> = vec![];
+    if !a.c0.is_zero() {
+        parts.push(a.c0.smt());
+    }
+    for (k, d) in &a.terms {
+        if *d == Dy::one() {
+            parts.push(atom_name(*k));
+        } else {
+            parts.push(format!("(* {} {})", d.smt(), atom_name(*k)));
+        }
+    }
+    if parts.len() == 1 {
+        parts.pop().unwrap()
+    } else {
+        format!("(+ {})", parts.join(" "))
+    }
+}
 
 pub struct Emit<'a> {
     pub arena: &'a Arena,
     need_nodes: BTreeSet<u32>,
+    need_atoms: BTreeSet<u32>,
     need_sign: BTreeSet<u32>,
     pub used_vars: BTreeSet<u32>,
     pub has_nonfinite: bool,
@@ -133,6 +220,7 @@ impl<'a> Emit<'a> {
         Emit {
             arena,
             need_nodes: BTreeSet::new(),
+            need_atoms: BTreeSet::new(),
             need_sign: BTreeSet::new(),
             used_vars: BTreeSet::new(),
             has_nonfinite: false,
@@ -140,57 +228,127 @@ impl<'a> Emit<'a> {
         }
     }
 
-    fn visit_node(&mut self, id: u32) {
+    /// exact affine normal form of a term (memoised in the arena)
+    pub fn aff(&self, id: u32) -> std::rc::Rc<Aff> {
+        if let Some(a) = self.arena.aff_cache.borrow().get(&id) {
+            return a.clone();
+        }
+        // iterative post-order: children have smaller ids
         let mut stack = vec![id];
-        while let Some(n) = stack.pop() {
+        while let Some(&n) = stack.last() {
+            if self.arena.aff_cache.borrow().contains_key(&n) {
+                stack.pop();
+                continue;
+            }
+            let node = &self.arena.nodes[n as usize];
+            let kids: Vec<u32> = match node {
+                Node::Un(U::Neg, a) => vec![*a],
+                Node::Bin(B::Add, a, b) | Node::Bin(B::Sub, a, b) | Node::Bin(B::Mul, a, b) | Node::Bin(B::Div, a, b) => vec![*a, *b],
+                _ => vec![],
+            };
+            let missing: Vec<u32> = kids.iter().cloned().filter(|k| !self.arena.aff_cache.borrow().contains_key(k)).collect();
+            if !missing.is_empty() {
+                stack.extend(missing);
+                continue;
+            }
+            let get = |k: u32| self.arena.aff_cache.borrow().get(&k).unwrap().clone();
+            let a: Aff = match node {
+                Node::Const(b) => match Dy::from_f64(f64::from_bits(*b)) {
+                    Some(d) => Aff::konst(d),
+                    None => Aff::atom(NODE_ATOM | n),
+                },
+                Node::Rat(p, q) => {
+                    let qa = q.unsigned_abs();
+                    if qa.is_power_of_two() {
+                        let mut d = Dy { neg: (*p < 0) != (*q < 0), mant: crate::big::BigU::from_u64(p.unsigned_abs()), exp: -(qa.trailing_zeros() as i32) };
+                        d.normalize();
+                        Aff::konst(d)
+                    } else {
+                        Aff::atom(NODE_ATOM | n)
+                    }
+                }
+                Node::Var(v) => Aff::atom(*v),
+                Node::Un(U::Neg, a) => get(*a).scale(&Dy::one().neg()),
+                Node::Bin(B::Add, a, b) => get(*a).add(&get(*b), false),
+                Node::Bin(B::Sub, a, b) => get(*a).add(&get(*b), true),
+                Node::Bin(B::Mul, a, b) => {
+                    let (x, y) = (get(*a), get(*b));
+                    if x.is_const() {
+                        y.scale(&x.c0)
+                    } else if y.is_const() {
+                        x.scale(&y.c0)
+                    } else {
+                        Aff::atom(NODE_ATOM | n)
+                    }
+                }
+                Node::Bin(B::Div, a, b) => {
+                    let (x, y) = (get(*a), get(*b));
+                    if y.is_const() && !y.c0.is_zero() && y.c0.mant == crate::big::BigU::from_u64(1) {
+                        // division by +-2^k is exact
+                        let inv = Dy { neg: y.c0.neg, mant: crate::big::BigU::from_u64(1), exp: -y.c0.exp };
+                        x.scale(&inv)
+                    } else {
+                        Aff::atom(NODE_ATOM | n)
+                    }
+                }
+                _ => Aff::atom(NODE_ATOM | n),
+            };
+            self.arena.aff_cache.borrow_mut().insert(n, std::rc::Rc::new(a));
+            stack.pop();
+        }
+        self.arena.aff_cache.borrow().get(&id).unwrap().clone()
+    }
+
+    fn visit_node(&mut self, id: u32) {
+        let mut work = vec![id];
+        while let Some(n) = work.pop() {
             if !self.need_nodes.insert(n) {
                 continue;
             }
-            match &self.arena.nodes[n as usize] {
-                Node::Const(b) => {
-                    if !f64::from_bits(*b).is_finite() {
-                        self.has_nonfinite = true;
-                    }
+            let a = self.aff(n);
+            for (k, _) in a.terms.iter() {
+                if *k < NODE_ATOM {
+                    self.used_vars.insert(*k);
+                    continue;
                 }
-                Node::Rat(_, _) => {}
-                Node::Var(v) => {
-                    self.used_vars.insert(*v);
+                let m = *k - NODE_ATOM;
+                if !self.need_atoms.insert(m) {
+                    continue;
                 }
-                Node::Un(op, a) => {
-                    match op {
-                        U::Neg | U::Abs | U::Signum => {}
-                        _ => self.nonlinear = true,
-                    }
-                    stack.push(*a);
-                }
-                Node::Powi(a, _) | Node::Root(a, _) => {
-                    self.nonlinear = true;
-                    stack.push(*a);
-                }
-                Node::Bin(op, a, b) => {
-                    let ga = self.arena.as_ground(*a).is_some();
-                    let gb = self.arena.as_ground(*b).is_some();
-                    match op {
-                        B::Add | B::Sub | B::Min | B::Max => {}
-                        B::Mul => {
-                            if !ga && !gb {
-                                self.nonlinear = true;
-                            }
+                self.need_nodes.insert(m);
+                match &self.arena.nodes[m as usize] {
+                    Node::Const(_) => self.has_nonfinite = true,
+                    Node::Rat(_, _) | Node::Var(_) => {}
+                    Node::Un(op, x) => {
+                        match op {
+                            U::Abs | U::Signum => {}
+                            _ => self.nonlinear = true,
                         }
-                        B::Div => {
-                            if !gb {
-                                self.nonlinear = true;
-                            }
-                        }
-                        _ => self.nonlinear = true,
+                        work.push(*x);
                     }
-                    stack.push(*a);
-                    stack.push(*b);
-                }
-                Node::Ite(c, a, b) => {
-                    self.visit_cond(*c);
-                    stack.push(*a);
-                    stack.push(*b);
+                    Node::Powi(x, _) | Node::Root(x, _) => {
+                        self.nonlinear = true;
+                        work.push(*x);
+                    }
+                    Node::Bin(op, x, y) => {
+                        match op {
+                            B::Min | B::Max => {}
+                            B::Div => {
+                                if !self.aff(*y).is_const() {
+                                    self.nonlinear = true;
+                                }
+                            }
+                            _ => self.nonlinear = true,
+                        }
+                        work.push(*x);
+                        work.push(*y);
+                    }
+                    Node::Ite(c, x, y) => {
+                        let c = *c;
+                        work.push(*x);
+                        work.push(*y);
+                        self.visit_cond(c);
+                    }
                 }
             }
         }
@@ -215,13 +373,57 @@ impl<'a> Emit<'a> {
         }
     }
 
-    fn nref(&self, id: u32) -> String {
-        match &self.arena.nodes[id as usize] {
-            Node::Const(b) => real_lit(f64::from_bits(*b)),
-            Node::Rat(p, q) => rat_lit(*p, *q),
-            Node::Var(v) => format!("v{}", v),
-            _ => format!("n{}", id),
+    /// coefficients longer than 64 bits are truncated to 60 bits; the total truncation error over the
+    /// variables' boxes is returned as an exact upper bound (None: nothing to shorten or an atom is unbounded)
+    fn shortened(&self, a: &Aff) -> Option<(Aff, Dy)> {
+        const KEEP: u32 = 60;
+        if a.c0.mant.bit_len() <= 64 && a.terms.iter().all(|(_, d)| d.mant.bit_len() <= 64) {
+            return None;
         }
+        let mut err = Dy::zero();
+        let mut out = Aff { c0: a.c0.clone(), terms: Vec::with_capacity(a.terms.len()) };
+        if let Some((r, e)) = a.c0.shorten(KEEP) {
+            out.c0 = r;
+            err = err.add(&e);
+        }
+        for (k, d) in &a.terms {
+            match d.shorten(KEEP) {
+                None => out.terms.push((*k, d.clone())),
+                Some((r, e)) => {
+                    if *k >= NODE_ATOM {
+                        return None;
+                    }
+                    let vi = &self.arena.vars[*k as usize];
+                    let (lo, hi) = (vi.lo?, vi.hi?);
+                    let m = Dy::from_f64(lo.abs().max(hi.abs()))?;
+                    err = err.add(&e.mul(&m));
+                    if !r.is_zero() {
+                        out.terms.push((*k, r));
+                    }
+                }
+            }
+        }
+        Some((out, err.round_up_abs(30)))
+    }
+
+    fn nref(&self, id: u32) -> String {
+        let a = self.aff(id);
+        if a.terms.is_empty() {
+            return a.c0.smt();
+        }
+        if a.terms.len() == 1 && a.c0.is_zero() && a.terms[0].1 == Dy::one() {
+            let k = a.terms[0].0;
+            if k >= NODE_ATOM {
+                if let Node::Rat(p, q) = &self.arena.nodes[(k - NODE_ATOM) as usize] {
+                    return rat_lit(*p, *q);
+                }
+            }
+            return atom_name(k);
+        }
+        if a.terms.len() <= 2 {
+            return aff_str(&a);
+        }
+        format!("e{}", id)
     }
 
     pub fn nref_pub(&self, id: u32) -> String {
@@ -247,7 +449,7 @@ impl<'a> Emit<'a> {
         let mut s = String::new();
         let mut ufs: BTreeSet<&'static str> = BTreeSet::new();
         let mut uf2: BTreeSet<&'static str> = BTreeSet::new();
-        for &n in &self.need_nodes {
+        for &n in &self.need_atoms {
             match &self.arena.nodes[n as usize] {
                 Node::Un(op, _) => match op {
                     U::Neg | U::Abs | U::Sqrt | U::Signum | U::Floor | U::Ceil | U::Round | U::Trunc => {}
@@ -289,135 +491,117 @@ impl<'a> Emit<'a> {
         for &n in &self.need_sign {
             writeln!(s, "(declare-const sb{} Bool)", n).unwrap();
         }
-        for &n in &self.need_nodes {
-            let node = &self.arena.nodes[n as usize];
-            match node {
-                Node::Const(_) | Node::Rat(_, _) | Node::Var(_) => continue,
-                _ => {}
+        for &n in &self.need_atoms {
+            if let Node::Un(U::Signum, _) = &self.arena.nodes[n as usize] {
+                writeln!(s, "(declare-const sgz{} Bool)", n).unwrap();
             }
-            writeln!(s, "(declare-const n{} Real)", n).unwrap();
-            match node {
-                Node::Un(op, a) => {
-                    let x = self.nref(*a);
-                    match op {
-                        U::Neg => writeln!(s, "(assert (= n{} (- {})))", n, x).unwrap(),
-                        U::Abs => writeln!(s, "(assert (= n{} (ite (>= {} 0.0) {} (- {}))))", n, x, x, x).unwrap(),
-                        U::Signum => writeln!(
-                            s,
-                            "(assert (= n{} (ite (> {} 0.0) 1.0 (ite (< {} 0.0) (- 1.0) (ite sgz{} 1.0 (- 1.0))))))\n",
-                            n, x, x, n
-                        )
-                        .unwrap(),
-                        U::Sqrt => {
-                            // s >= 0 and s*s = x whenever x >= 0 (undefined otherwise)
-                            writeln!(s, "(assert (=> (>= {} 0.0) (and (>= n{} 0.0) (= (* n{} n{}) {}))))", x, n, n, n, x)
-                                .unwrap()
-                        }
-                        U::Floor => writeln!(s, "(assert (= n{} (to_real (to_int {}))))", n, x).unwrap(),
-                        U::Ceil => writeln!(s, "(assert (= n{} (- (to_real (to_int (- {}))))))", n, x).unwrap(),
-                        U::Trunc => writeln!(
-                            s,
-                            "(assert (= n{} (ite (>= {} 0.0) (to_real (to_int {})) (- (to_real (to_int (- {})))))))",
-                            n, x, x, x
-                        )
-                        .unwrap(),
-                        U::Round => writeln!(
-                            s,
-                            "(assert (= n{} (ite (>= {} 0.0) (to_real (to_int (+ {} 0.5))) (- (to_real (to_int (+ (- {}) 0.5)))))))",
-                            n, x, x, x
-                        )
-                        .unwrap(),
-                        _ => {
-                            writeln!(s, "(assert (= n{} (uf_{} {})))", n, op.name(), x).unwrap();
-                            match op {
-                                U::Sin | U::Cos | U::Tanh => {
-                                    writeln!(s, "(assert (and (<= n{} 1.0) (>= n{} (- 1.0))))", n, n).unwrap()
-                                }
-                                U::Exp | U::Exp2 | U::Cosh => writeln!(s, "(assert (> n{} 0.0))", n).unwrap(),
-                                U::Ln | U::Log2 | U::Log10 => {
-                                    // sign information only: log x < 0 iff 0 < x < 1, = 0 iff x = 1
-                                    writeln!(
+        }
+        // nodes in increasing id order: children (smaller ids) are defined before their users
+        for &n in &self.need_nodes {
+            if self.need_atoms.contains(&n) {
+                let node = &self.arena.nodes[n as usize];
+                match node {
+                    Node::Const(_) | Node::Rat(_, _) | Node::Var(_) => continue,
+                    _ => {}
+                }
+                writeln!(s, "(declare-const n{} Real)", n).unwrap();
+                match node {
+                    Node::Un(op, a) => {
+                        let x = self.nref(*a);
+                        match op {
+                            U::Neg => writeln!(s, "(assert (= n{} (- {})))", n, x).unwrap(),
+                            U::Abs => writeln!(s, "(assert (= n{} (ite (>= {} 0.0) {} (- {}))))", n, x, x, x).unwrap(),
+                            U::Signum => writeln!(s, "(assert (= n{} (ite (> {} 0.0) 1.0 (ite (< {} 0.0) (- 1.0) (ite sgz{} 1.0 (- 1.0))))))", n, x, x, n).unwrap(),
+                            U::Sqrt => writeln!(s, "(assert (=> (>= {} 0.0) (and (>= n{} 0.0) (= (* n{} n{}) {}))))", x, n, n, n, x).unwrap(),
+                            U::Floor => writeln!(s, "(assert (= n{} (to_real (to_int {}))))", n, x).unwrap(),
+                            U::Ceil => writeln!(s, "(assert (= n{} (- (to_real (to_int (- {}))))))", n, x).unwrap(),
+                            U::Trunc => writeln!(s, "(assert (= n{} (ite (>= {} 0.0) (to_real (to_int {})) (- (to_real (to_int (- {})))))))", n, x, x, x).unwrap(),
+                            U::Round => writeln!(s, "(assert (= n{} (ite (>= {} 0.0) (to_real (to_int (+ {} 0.5))) (- (to_real (to_int (+ (- {}) 0.5)))))))", n, x, x, x).unwrap(),
+                            _ => {
+                                writeln!(s, "(assert (= n{} (uf_{} {})))", n, op.name(), x).unwrap();
+                                match op {
+                                    U::Sin | U::Cos | U::Tanh => writeln!(s, "(assert (and (<= n{} 1.0) (>= n{} (- 1.0))))", n, n).unwrap(),
+                                    U::Exp | U::Exp2 | U::Cosh => writeln!(s, "(assert (> n{} 0.0))", n).unwrap(),
+                                    U::Ln | U::Log2 | U::Log10 => writeln!(
                                         s,
                                         "(assert (=> (> {} 0.0) (and (= (< n{} 0.0) (< {} 1.0)) (= (= n{} 0.0) (= {} 1.0)))))",
                                         x, n, x, n, x
                                     )
-                                    .unwrap()
+                                    .unwrap(),
+                                    U::Cbrt => writeln!(s, "(assert (= (* n{} n{} n{}) {}))", n, n, n, x).unwrap(),
+                                    _ => {}
                                 }
-                                U::Cbrt => writeln!(s, "(assert (= (* n{} n{} n{}) {}))", n, n, n, x).unwrap(),
-                                _ => {}
                             }
                         }
                     }
-                    if let U::Signum = op {
-                        // free choice for signum(0): declared after use is fine in SMT-LIB? no: declare first
-                    }
-                }
-                Node::Bin(op, a, b) => {
-                    let x = self.nref(*a);
-                    let y = self.nref(*b);
-                    match op {
-                        B::Add => writeln!(s, "(assert (= n{} (+ {} {})))", n, x, y).unwrap(),
-                        B::Sub => writeln!(s, "(assert (= n{} (- {} {})))", n, x, y).unwrap(),
-                        B::Mul => writeln!(s, "(assert (= n{} (* {} {})))", n, x, y).unwrap(),
-                        B::Div => {
-                            if self.arena.as_ground(*b).is_some() {
-                                writeln!(s, "(assert (= n{} (/ {} {})))", n, x, y).unwrap()
-                            } else {
-                                // q*y = x when y != 0 (division by zero left unconstrained)
-                                writeln!(s, "(assert (=> (not (= {} 0.0)) (= (* n{} {}) {})))", y, n, y, x).unwrap()
+                    Node::Bin(op, a, b) => {
+                        let x = self.nref(*a);
+                        let y = self.nref(*b);
+                        match op {
+                            B::Add => writeln!(s, "(assert (= n{} (+ {} {})))", n, x, y).unwrap(),
+                            B::Sub => writeln!(s, "(assert (= n{} (- {} {})))", n, x, y).unwrap(),
+                            B::Mul => writeln!(s, "(assert (= n{} (* {} {})))", n, x, y).unwrap(),
+                            B::Div => {
+                                if self.aff(*b).is_const() {
+                                    writeln!(s, "(assert (= n{} (/ {} {})))", n, x, y).unwrap()
+                                } else {
+                                    writeln!(s, "(assert (=> (not (= {} 0.0)) (= (* n{} {}) {})))", y, n, y, x).unwrap()
+                                }
                             }
+                            B::Min => writeln!(s, "(assert (= n{} (ite (<= {} {}) {} {})))", n, x, y, x, y).unwrap(),
+                            B::Max => writeln!(s, "(assert (= n{} (ite (>= {} {}) {} {})))", n, x, y, x, y).unwrap(),
+                            B::Copysign => writeln!(s, "(assert (= n{} (ite (>= {} 0.0) (ite (>= {} 0.0) {} (- {})) (ite (>= {} 0.0) (- {}) {}))))", n, y, x, x, x, x, x, x).unwrap(),
+                            B::Powf => {
+                                writeln!(s, "(assert (= n{} (uf_powf {} {})))", n, x, y).unwrap();
+                                writeln!(s, "(assert (=> (> {} 0.0) (> n{} 0.0)))", x, n).unwrap();
+                            }
+                            B::Atan2 => writeln!(s, "(assert (= n{} (uf_atan2 {} {})))", n, x, y).unwrap(),
+                            B::Rem => writeln!(s, "(assert (= n{} (uf_frem {} {})))", n, x, y).unwrap(),
+                            B::Hypot => unreachable!(),
                         }
-                        B::Min => writeln!(s, "(assert (= n{} (ite (<= {} {}) {} {})))", n, x, y, x, y).unwrap(),
-                        B::Max => writeln!(s, "(assert (= n{} (ite (>= {} {}) {} {})))", n, x, y, x, y).unwrap(),
-                        B::Copysign => writeln!(
-                            s,
-                            "(assert (= n{} (ite (>= {} 0.0) (ite (>= {} 0.0) {} (- {})) (ite (>= {} 0.0) (- {}) {}))))",
-                            n, y, x, x, x, x, x, x
-                        )
-                        .unwrap(),
-                        B::Powf => {
-                            writeln!(s, "(assert (= n{} (uf_powf {} {})))", n, x, y).unwrap();
-                            writeln!(s, "(assert (=> (> {} 0.0) (> n{} 0.0)))", x, n).unwrap();
+                    }
+                    Node::Powi(a, k) => {
+                        let x = self.nref(*a);
+                        let mut t = String::from("(*");
+                        for _ in 0..*k {
+                            t.push(' ');
+                            t.push_str(&x);
                         }
-                        B::Atan2 => writeln!(s, "(assert (= n{} (uf_atan2 {} {})))", n, x, y).unwrap(),
-                        B::Rem => writeln!(s, "(assert (= n{} (uf_frem {} {})))", n, x, y).unwrap(),
-                        B::Hypot => unreachable!(),
+                        t.push(')');
+                        writeln!(s, "(assert (= n{} {}))", n, t).unwrap();
+                    }
+                    Node::Root(a, k) => {
+                        let x = self.nref(*a);
+                        let mut t = String::from("(*");
+                        for _ in 0..*k {
+                            write!(t, " n{}", n).unwrap();
+                        }
+                        t.push(')');
+                        writeln!(s, "(assert (=> (>= {} 0.0) (and (>= n{} 0.0) (= {} {}))))", x, n, t, x).unwrap();
+                    }
+                    Node::Ite(c, a, b) => {
+                        writeln!(s, "(assert (= n{} (ite {} {} {})))", n, self.cond_str(*c), self.nref(*a), self.nref(*b)).unwrap();
+                    }
+                    _ => {}
+                }
+            } else {
+                let a = self.aff(n);
+                if a.terms.len() > 2 {
+                    // only for purely linear queries: the extra slack variables hurt nlsat more than long numerals do
+                    match if self.nonlinear { None } else { self.shortened(&a) } {
+                        Some((short, err)) => {
+                            // sound relaxation: exact form = shortened form + r, |r| <= err (long numerals stall the solvers)
+                            writeln!(s, "(declare-const r{} Real)", n).unwrap();
+                            writeln!(s, "(assert (and (<= (- {}) r{}) (<= r{} {})))", err.smt(), n, n, err.smt()).unwrap();
+                            let body = aff_str(&short);
+                            writeln!(s, "(define-fun e{} () Real (+ {} r{}))", n, body, n).unwrap();
+                        }
+                        None => writeln!(s, "(define-fun e{} () Real {})", n, aff_str(&a)).unwrap(),
                     }
                 }
-                Node::Powi(a, k) => {
-                    let x = self.nref(*a);
-                    let mut t = String::from("(*");
-                    for _ in 0..*k {
-                        t.push(' ');
-                        t.push_str(&x);
-                    }
-                    t.push(')');
-                    writeln!(s, "(assert (= n{} {}))", n, t).unwrap();
-                }
-                Node::Root(a, k) => {
-                    let x = self.nref(*a);
-                    let mut t = String::from("(*");
-                    for _ in 0..*k {
-                        write!(t, " n{}", n).unwrap();
-                    }
-                    t.push(')');
-                    writeln!(s, "(assert (=> (>= {} 0.0) (and (>= n{} 0.0) (= {} {}))))", x, n, t, x).unwrap();
-                }
-                Node::Ite(c, a, b) => {
-                    writeln!(s, "(assert (= n{} (ite {} {} {})))", n, self.cond_str(*c), self.nref(*a), self.nref(*b))
-                        .unwrap();
-                }
-                _ => {}
             }
         }
-        // signum free booleans must be declared before use: prepend
-        let mut pre = String::new();
-        for &n in &self.need_nodes {
-            if let Node::Un(U::Signum, _) = &self.arena.nodes[n as usize] {
-                writeln!(pre, "(declare-const sgz{} Bool)", n).unwrap();
-            }
-        }
-        pre + &s
+        s
     }
 }
 
@@ -571,6 +755,9 @@ impl Solver {
                     if t.starts_with("(error") {
                         had_error = true;
                         self.last_error = t.to_string();
+                        if std::env::var("SYMX_TRACE").is_ok() {
+                            eprintln!("[solver error] {}\n{}", t, body);
+                        }
                     } else if t == "sat" {
                         verdict = Verdict::Sat;
                     } else if t == "unsat" {
